@@ -135,6 +135,20 @@ impl<'a> OperationVisitorContext<'a> {
     pub fn current_field(&self) -> Option<&schema::Field> {
         self.field_stack.last().unwrap_or(&None).as_deref()
     }
+
+    /// Verification hook: depths of the six context stacks (type, parent type, input type,
+    /// type literal, input type literal, field).
+    #[cfg(graphql_tools_rs_verif)]
+    pub fn verif_stack_depths(&self) -> [usize; 6] {
+        [
+            self.type_stack.len(),
+            self.parent_type_stack.len(),
+            self.input_type_stack.len(),
+            self.type_literal_stack.len(),
+            self.input_type_literal_stack.len(),
+            self.field_stack.len(),
+        ]
+    }
 }
 
 pub fn visit_document<'a, Visitor, UserContext>(
